@@ -780,7 +780,8 @@ func (SmallInt).RightBitshiftSmallInt
   props C06
   assigns nothing
   // i >> MinSmallInt would be i * 2^(2^63): not representable, excluded
-  ensures val: other > MinSmallInt ==> isInt(ret) && intval(ret) == shl(i, -other)
+  ensures valpos: other >= 0 ==> isInt(ret) && intval(ret) == shl(i, -other)
+  ensures valneg: other < 0 && other > MinSmallInt ==> isInt(ret) && intval(ret) == shl(i, -other)
   ensures canon: canon(ret)
 
 // ==== C24: lists and tuples behave as sequences ===================================
